@@ -20,4 +20,13 @@ PROPS = {
         "trusted": COMMON_TRUST + ["the shuffle of each id block is an arbitrary permutation (oracle input read through the hook accessor)"],
         "assumptions": ["rand's shuffle returns a permutation of the block"],
     },
+    "C06": {
+        "engines": [{"name": "token", "quick": 60, "thorough": 600}],
+        "constants": ["TOKEN_REFRESH_INTERVAL_ns", "INFO_HASH_LEN"],
+        "trusted": COMMON_TRUST + [
+            "symbolic tokens: SHA-1 is collision-free on the 8/20-byte inputs, a party not given a token cannot produce it, fresh 32-bit secrets differ from earlier ones (2^-32 per rotation; the harness checks token == SHA1(ip||secret) with its own SHA-1)",
+            "monotone clock (std Instant), replaced by tokio's paused clock under the hook"],
+        "assumptions": ["clock is monotone", "adversary presents issued tokens or junk (symbolic model)"],
+        "level_note": "store-level clauses proved for all histories; the handler-level gate (store only after checkin accepts, error 203, wrong-length tokens) is decided by the handler model of C05 (C06_gate)",
+    },
 }
